@@ -309,6 +309,10 @@ func (q *weightedFairQueueingPendingQueuePolicy) Push(chunk StreamSchedulerChunk
 	q.streamFinish[streamID] = finish
 	q.chunkFinish[chunk.chunkPayloadData()] = finish
 	streamQueue.push(chunk.chunkPayloadData())
+
+	// A chunk that was looked at but not taken (the window was closed) is not a
+	// commitment: what is queued now may have an earlier finish tag.
+	q.streamSelected = false
 }
 
 func (q *weightedFairQueueingPendingQueuePolicy) Peek() StreamSchedulerChunk {
